@@ -1,8 +1,290 @@
-//! C05 — not built yet.
+//! C05 — frames last 69888/70908 T with a 32-T INT pulse; no T-state is ever lost.
+//! (1) clock level: arbitrary wait sequences through the real `wait_internal` (hook H1) against the
+//!     Lean clock model and the arithmetic spec (total = frames*L + offset, INT <=> offset < 32);
+//! (2) system level: real Z80 programs under `emulate_frames` — constant-time counting loops for
+//!     conservation of time across frame ends, IM 2 interrupt counters for "once per frame",
+//!     and a sweep of the INT window with the CPU placed at every offset 0..48.
+use crate::host::*;
 use crate::util::*;
+use rustzx_core::EmulationMode;
+use std::time::Duration;
 
-pub fn run(_o: &Opts) -> Report {
+fn frame_len(m128: bool) -> usize {
+    if m128 {
+        70908
+    } else {
+        69888
+    }
+}
+
+fn load(e: &mut Emu, addr: u16, bytes: &[u8]) {
+    for (i, b) in bytes.iter().enumerate() {
+        e.verif_write_mem(addr.wrapping_add(i as u16), *b, 0);
+    }
+}
+
+fn start(e: &mut Emu, pc: u16) {
+    e.verif_set_frame_clocks(0);
+    let cpu = e.verif_cpu();
+    cpu.regs.set_pc(pc);
+    cpu.regs.set_sp(0xFF00);
+    cpu.regs.set_iff1(false);
+    cpu.regs.set_iff2(false);
+    cpu.regs.set_bc(0);
+    cpu.regs.set_de(0);
+    cpu.halted = false;
+    cpu.skip_interrupt = false;
+}
+
+fn viol(rep: &mut Report, kind: Kind, key: &str, what: String, case: String, got: String, want: String) {
+    rep.violation(Violation {
+        kind,
+        key: key.to_string(),
+        what,
+        correspondence: "corr.C05.clock (Model.Machine.Ctl.waitInternal/intActive vs wait_internal/new_frame/int_active)".into(),
+        case: J::obj(vec![("text", J::s(case))]),
+        implementation: got,
+        expected: want,
+    });
+}
+
+/// (1) wait sequences
+fn clock_level(o: &Opts, model: &mut Model, rep: &mut Report, only: Option<(bool, Vec<usize>)>) {
+    let mut rng = Rng::new(o.seed ^ 0x05);
+    let runs = if only.is_some() { 1 } else { o.n(60, 5000) };
+    for run in 0..runs {
+        let mut r = rng.fork();
+        let (m128, waits): (bool, Vec<usize>) = match &only {
+            Some(x) => x.clone(),
+            None => {
+                let m128 = r.bool();
+                let l = frame_len(m128);
+                let n = r.range(50, 3000) as usize;
+                let style = r.below(4);
+                let w = (0..n)
+                    .map(|_| match style {
+                        0 => r.range(1, 13) as usize,             // what the bus really issues
+                        1 => r.range(1, 40) as usize,
+                        2 => {
+                            if r.chance(1, 20) {
+                                r.range(l as u64 - 50, l as u64 - 1) as usize
+                            } else {
+                                r.range(1, 400) as usize
+                            }
+                        }
+                        _ => *r.pick(&[1usize, 3, 4, 7, 31, 32, 33, l - 1, l / 2]),
+                    })
+                    .collect();
+                (m128, w)
+            }
+        };
+        let l = frame_len(m128);
+        let mut e = emu(&Cfg::new(m128));
+        let mut lines = vec![format!("new {}", if m128 { 128 } else { 48 })];
+        let mut obs = vec![];
+        let mut total = 0usize;
+        for w in &waits {
+            e.verif_wait(*w);
+            total += w;
+            lines.push(format!("wait {:x}", w));
+            obs.push((total, e.verif_frame_clocks(), e.verif_frames_count(), e.verif_int_active()));
+        }
+        let answers = model.ask_many(&lines);
+        rep.count("wait_runs", format!("{} waits~{}", if m128 { "128k" } else { "48k" }, (waits.len() / 1000) * 1000));
+        if run < 2 {
+            rep.sample(J::s(format!("{} waits {:?}…", if m128 { 128 } else { 48 }, &waits[..waits.len().min(12)])));
+        }
+        for (i, (tot, fc, frames, int)) in obs.iter().enumerate() {
+            rep.eval();
+            let got = format!("{:05x} {:04x} {}", fc, frames, *int as u8);
+            let spec = format!("{:05x} {:04x} {}", tot % l, tot / l, ((tot % l) < 32) as u8);
+            if *fc < 40 || l.saturating_sub(*fc) < 40 {
+                rep.class(format!("{} offset {} int {}", m128, fc, int));
+            }
+            let case = format!("waits {} {}", if m128 { 128 } else { 48 }, waits[..=i].iter().map(|w| format!("{:x}", w)).collect::<Vec<_>>().join(","));
+            if got != spec {
+                // shrink: the prefix up to here is the failing history; keep it as it is (already minimal in length
+                // for the first failure)
+                viol(rep, Kind::SpecViolated, &format!("C05/clock/{}", if (tot % l < 32) != *int { "int-window" } else { "time-not-conserved" }),
+                    format!("after waits summing to {} T: (offset, frames, INT) = {} but frames*L+offset must be the sum: {}", tot, got, spec),
+                    case, got, spec);
+                break;
+            }
+            if got != answers[i + 1] {
+                viol(rep, Kind::ModelMismatch, "C05/clock/model", format!("after waits summing to {} T: {} vs model {}", tot, got, answers[i + 1]),
+                    case, got, answers[i + 1].clone());
+                break;
+            }
+        }
+    }
+}
+
+/// (2a) conservation through real execution: DI; loop: INC BC; JP loop  (16 T per iteration, uncontended)
+fn conservation(o: &Opts, rep: &mut Report, only: Option<(bool, usize, usize)>) {
+    let mut cases = vec![];
+    if let Some(c) = only {
+        cases.push(c);
+    } else {
+        for m128 in [false, true] {
+            for frames in 1..=14usize {
+                for per_call in [1usize, 2, 3, 14] {
+                    if per_call <= frames && (o.thorough() || frames % 3 == 1 || per_call == 1) {
+                        cases.push((m128, frames, per_call));
+                    }
+                }
+            }
+        }
+    }
+    for (m128, frames, per_call) in cases {
+        let l = frame_len(m128);
+        let mut e = emu(&Cfg::new(m128));
+        load(&mut e, 0x8000, &[0xF3, 0x03, 0xC3, 0x01, 0x80]);
+        start(&mut e, 0x8000);
+        let mut done = 0;
+        while done < frames {
+            let n = per_call.min(frames - done);
+            e.set_speed(EmulationMode::FrameCount(n));
+            let _ = e.emulate_frames(Duration::from_secs(100));
+            done += n;
+        }
+        let fc = e.verif_frame_clocks();
+        let cpu = e.verif_cpu();
+        let bc = cpu.regs.get_bc() as usize;
+        let pc = cpu.regs.get_pc();
+        rep.eval();
+        rep.class(format!("conservation {} frames={} per_call={}", m128, frames, per_call));
+        rep.count("programs", "counting loop (time conservation)");
+        let executed = 4 + 16 * bc - if pc == 0x8002 { 10 } else { 0 };
+        let case = format!("conserve {} {} {}", if m128 { 128 } else { 48 }, frames, per_call);
+        if pc != 0x8001 && pc != 0x8002 {
+            viol(rep, Kind::SpecViolated, "C05/conservation/pc", format!("counting loop left its code: PC={:04x}", pc), case, format!("{:04x}", pc), "8001|8002".into());
+        } else if executed != frames * l + fc || fc >= 10 {
+            viol(rep, Kind::SpecViolated, "C05/conservation/lost-tstates",
+                format!("{} after {} frames ({} per call): program executed {} T but frames*L+offset = {}*{}+{} = {}",
+                    if m128 { "128K" } else { "48K" }, frames, per_call, executed, frames, l, fc, frames * l + fc),
+                case, format!("{}", executed), format!("{}", frames * l + fc));
+        }
+    }
+}
+
+/// (2b) one interrupt per frame: IM 2 handler (73 T, longer than the 32-T pulse) counting in RAM
+fn interrupts(o: &Opts, rep: &mut Report, only: Option<(bool, bool, usize)>) {
+    let mut cases = vec![];
+    if let Some(c) = only {
+        cases.push(c);
+    } else {
+        for m128 in [false, true] {
+            for halted in [false, true] {
+                for frames in 2..=(o.n(12, 60) as usize) {
+                    cases.push((m128, halted, frames));
+                }
+            }
+        }
+    }
+    for (m128, halted, frames) in cases {
+        let mut e = emu(&Cfg::new(m128));
+        // 8000: DI; LD A,81; LD I,A; IM 2; EI; loop: (HALT | INC DE); JR loop
+        load(&mut e, 0x8000, &[0xF3, 0x3E, 0x81, 0xED, 0x47, 0xED, 0x5E, 0xFB, if halted { 0x76 } else { 0x13 }, 0x18, 0xFD]);
+        // vector 81FF -> 9000
+        load(&mut e, 0x81FF, &[0x00, 0x90]);
+        // 9000: PUSH HL; LD HL,(A000); INC HL; LD (A000),HL; POP HL; EI; RET
+        load(&mut e, 0x9000, &[0xE5, 0x2A, 0x00, 0xA0, 0x23, 0x22, 0x00, 0xA0, 0xE1, 0xFB, 0xC9]);
+        start(&mut e, 0x8000);
+        let mut counts = vec![];
+        for _ in 0..frames {
+            e.set_speed(EmulationMode::FrameCount(1));
+            let _ = e.emulate_frames(Duration::from_secs(100));
+            counts.push(e.peek(0xA000) as usize + 256 * e.peek(0xA001) as usize);
+        }
+        rep.eval();
+        rep.class(format!("int-count {} halted={} frames={}", m128, halted, frames));
+        rep.count("programs", if halted { "IM2 counter, HALT loop" } else { "IM2 counter, busy loop" });
+        // the interrupt of a frame start is accepted by the first instruction step of that frame; a call
+        // returns at the first instruction boundary after the frame end, so after k frames k-1 were taken
+        let ok = counts.iter().enumerate().all(|(k, c)| *c == k);
+        if !ok {
+            viol(rep, Kind::SpecViolated, "C05/int-per-frame",
+                format!("{} {} loop: interrupts counted after 1..{} frames = {:?}, expected exactly one per frame start (0,1,2,…)",
+                    if m128 { "128K" } else { "48K" }, if halted { "HALT" } else { "busy" }, frames, counts),
+                format!("ints {} {} {}", if m128 { 128 } else { 48 }, halted as u8, frames), format!("{:?}", counts), "0,1,2,...".into());
+        }
+    }
+}
+
+/// (2c) INT window: CPU with interrupts enabled placed at every frame offset 0..=47
+fn int_window(rep: &mut Report, model: &mut Model, only: Option<(bool, usize)>) {
+    for m128 in [false, true] {
+        model.ask(&format!("new {}", if m128 { 128 } else { 48 }));
+        for t in 0..48usize {
+            if let Some((m, tt)) = only {
+                if m != m128 || tt != t {
+                    continue;
+                }
+            }
+            let mut e = emu(&Cfg::new(m128));
+            load(&mut e, 0x8000, &[0x00, 0x00]);
+            let mut d = Dbg::default();
+            d.break_all = true;
+            e.set_debug_interface(d);
+            start(&mut e, 0x8000);
+            e.verif_set_frame_clocks(t);
+            {
+                let cpu = e.verif_cpu();
+                cpu.regs.set_iff1(true);
+                cpu.regs.set_iff2(true);
+                cpu.set_im(1);
+            }
+            let _ = e.emulate_frames(Duration::from_secs(100));
+            let pc = e.verif_cpu().regs.get_pc();
+            let accepted = pc == 0x0039;
+            model.ask(&format!("clk {:x}", t));
+            let ans = model.ask("wait 0");
+            let model_int = ans.ends_with('1');
+            rep.eval();
+            rep.class(format!("int-window {} t={} accepted={}", m128, t, accepted));
+            let case = format!("window {} {}", if m128 { 128 } else { 48 }, t);
+            if accepted != (t < 32) {
+                viol(rep, Kind::SpecViolated, "C05/int-window/acceptance",
+                    format!("{}: instruction boundary at frame offset {} with IFF1 set: interrupt {} (INT must be asserted for exactly the first 32 T)",
+                        if m128 { "128K" } else { "48K" }, t, if accepted { "accepted" } else { "not accepted" }),
+                    case, format!("{}", accepted), format!("{}", t < 32));
+            } else if accepted != model_int {
+                viol(rep, Kind::ModelMismatch, "C05/int-window/model", format!("offset {}: accepted={} model int={}", t, accepted, model_int), case, format!("{}", accepted), format!("{}", model_int));
+            }
+        }
+    }
+}
+
+pub fn run(o: &Opts) -> Report {
     let mut rep = Report::new("C05");
-    rep.notes.push("not built yet".into());
+    rep.rule = "clock level: seeded wait sequences (bus-sized 1..13 T, larger, near-frame-length, boundary values) through the \
+real wait_internal over many frames, (offset, frames, INT) compared after every wait with the Lean clock model and with \
+total = frames*L + offset, INT <=> offset < 32; system level: counting loop (16 T/iteration) run for 1..14 frames sliced \
+1/2/3/14 frames per emulate_frames call on both machines (executed T-states must equal frames*L+offset), IM 2 \
+interrupt counters under HALT and busy loops (exactly one interrupt per frame start), and the INT window swept with \
+an interrupt-enabled CPU at every frame offset 0..47. distinct/non-trivial = distinct (machine, offset near a frame \
+edge, INT level) clock observations + distinct program/slicing/offset cases".into();
+    let mut model = Model::spawn(&o.model, "C05");
+    if let Some(text) = &o.replay {
+        rep.sample(J::s(text.clone()));
+        let t: Vec<&str> = text.split_whitespace().collect();
+        let m128 = t.get(1) == Some(&"128");
+        let n = |i: usize| t.get(i).and_then(|x| x.parse::<usize>().ok()).unwrap_or(1);
+        match t.first().copied() {
+            Some("waits") => {
+                let w = t.get(2).unwrap_or(&"").split(',').filter_map(|x| usize::from_str_radix(x, 16).ok()).collect();
+                clock_level(o, &mut model, &mut rep, Some((m128, w)));
+            }
+            Some("conserve") => conservation(o, &mut rep, Some((m128, n(2), n(3)))),
+            Some("ints") => interrupts(o, &mut rep, Some((m128, n(2) == 1, n(3)))),
+            Some("window") => int_window(&mut rep, &mut model, Some((m128, n(2)))),
+            _ => {}
+        }
+        return rep;
+    }
+    clock_level(o, &mut model, &mut rep, None);
+    conservation(o, &mut rep, None);
+    interrupts(o, &mut rep, None);
+    int_window(&mut rep, &mut model, None);
     rep
 }
